@@ -4,13 +4,16 @@ CFG = {
     "props_module": "RpmVerif.Props.C11",
     "required_theorems": ["RpmVerif.C11.build_deterministic", "RpmVerif.C11.build_bytes_deterministic", "RpmVerif.C11.buildtime_clamped",
                           "RpmVerif.C11.mtimes_clamped", "RpmVerif.C11.owners_order_independent", "RpmVerif.C11.sign_time_deterministic"],
-    "trivial_branches": ["build-rejected"],
+    "trivial_branches": ["build-rejected", "future-source-date"],
     "rule": "C06-style random configurations with a source date in the past of every clock used and 0..5 extra files owned by distinct non-root users / "
             "groups (the former HashSet order), file mtimes before and after the source date; every configuration is built 5 times in-process with "
-            "different pinned clocks and in 2 (quick) / 4 (thorough) freshly started child processes (different RandomState seeds, TZ, LANG, environment), "
+            "different pinned clocks and in 2 (quick) / 4 (thorough) freshly started child processes (different RandomState seeds, TZ, LANG, environment, each in its own "
+            "working directory), "
             "a quarter signed with Ed25519 and a few with RSA-4096 (deterministic schemes; ECDSA excluded); all package bytes are compared, the main "
             "header also with the model's byte-exact prediction; build time, max file mtime and signature creation time are read back. "
-            "Non-trivial = build accepted; distinct = distinct requests.",
+            "Every eighth configuration is also run with a source date in the FUTURE of every clock (1 800 000 000, now + 900 000, u32::MAX; half of them signed): "
+            "outside the reproducibility clause (the model predicts that every run differs, in the build time), judged for 'no timestamp later than the source date'. "
+            "Non-trivial = build accepted with a source date in the past; distinct = distinct requests.",
     "exhaustive": False,
     "shards": {"quick": 8, "thorough": 16},
     "shrink": False,
